@@ -184,6 +184,10 @@ func init() {
 			if r.chance(1, 2) {
 				args += " cap=" + hx(r.text(alphaHTML, 4))
 			}
+			if r.chance(1, 4) {
+				// a template name of the caller's choosing, set before the first render: no output depends on it
+				args += " tn=" + hx(r.pick([]string{"tr", "td", "th", "table", "row", "cell", "T", "tbody", "thead", "Headers", "Rows", "layout", "x{{y}}", "a b", "\x00"}))
+			}
 			if r.chance(1, 2) {
 				var l []string
 				for n := 0; n <= g.x.tables[idOf(t)].NRows(); n++ {
